@@ -189,7 +189,7 @@ def act(cx, tok):
     if tok == "dwr0":
         return cx.recv(f, dict(kind="dwr", host=cx.host_of(f), hbh=0, e2e=cx.ids()[1])) is not None
     if tok in ("req", "req0", "req_bad", "req_app", "req_realm", "req_unk", "req_raise", "req_unk_app", "req_unk2", "req_unk2t", "req_unk2s", "req_app0", "req_t", "req_third", "req_realm_app", "req_badrealm",
-               "req_acr", "req_same_e2e"):
+               "req_acr", "req_same_e2e", "req_unk_nohost"):
         spec = dict(kind="req", host=cx.host_of(f), app=app_ids[0] if app_ids else 4)
         if tok == "req0":
             spec.update(hbh=0, e2e=cx.ids()[1])
@@ -203,6 +203,9 @@ def act(cx, tok):
             spec["code"] = 8388000
         elif tok == "req_raise":
             spec["raises"] = True
+        elif tok == "req_unk_nohost":  # a command without a python class (no AVP is required of it) that carries NO Origin-Host
+            spec["code"] = 8388000
+            spec["host"] = None
         elif tok in ("req_unk2", "req_unk2t"):   # the same with TWO Origin-Host AVPs (and the T flag)
             spec["code"] = 8388000
             spec["app"] = 777
@@ -504,6 +507,11 @@ PHASED = {
     # request, and the application answers it
     "foreign_cea": ((0, 2), [],
                     [("fixed", ["cea_foreign", "accept_bg", "swap", "cer_known", "req"]), ("any", ["ans", "swap", "close", "t1", "req"], 3)]),
+    # a request that names no origin is pending when its connection is lost; the peer comes back and the application
+    # answers late: nothing may be written on the new connection
+    "nohost_reconnect": ((0, 2), ["accept", "cer_known"],
+                         [("any", ["req", "req_unk_nohost"], 1), ("fixed", ["req_unk_nohost", "close", "accept", "cer_known"]),
+                          ("any", ["ans", "ans_again", "req", "req_unk_nohost", "t1", "close"], 3)]),
     "fragments": ((0, 1), ["accept", "cer_known"],
                   [("any", ["frag", "frag_rest", "t1", "tdwa", "tbig", "dwr"], 4)]),
 }
